@@ -148,7 +148,44 @@ def r_conversions(ctx):
     ctx.ob(rid, 'with_span', rets == ['new(self, span)'], 'Error::with_span(span) = RichError::new(self, span)', ws.where(), str(rets))
 
 
+def r_same_text(ctx):
+    rid = 'R20.6'
+    ctx.rule(rid, 'the text that is parsed is the text that is attached to errors and the text the caller supplied: no transformation (trim, replace, slice) between the entry point, the pest parser and with_file')
+    fx = ctx.facts()
+    pf = ctx.anchor(fx, '<A as parse::ParseFromStr>::parse_from_str')
+    ok = False
+    detail = None
+    for kind, p, ret in explore(ctx, pf, follow_break=True):
+        ps = [e for e in event_calls(p, 'parse') if 'IdentParser' in e[1] or 'pest' in e[1]]
+        wf = event_calls(p, 'with_file')
+        if ps and wf:
+            param = ('param', 0, pf.names.get(1, 's'))
+            detail = 'parse(.., %s); with_file(.., %s)' % (S(ps[0][2][1]), [S(w[2][1]) for w in wf])
+            ok = ps[0][2][1] == param and all(w[2][1] == param for w in wf)
+    ctx.ob(rid, 'parse_from_str', ok, 'parse_from_str parses and attaches exactly its argument', pf.where(), detail)
+    tn = ctx.anchor(fx, 'TemplateProgram::new')
+    ok = False
+    for kind, p, ret in explore(ctx, tn, follow_break=True):
+        if kind == 'RET' and ret_kind(ret) == 'ok':
+            lit = [x for x in walk(ret) if x[0] == 'agg' and x[1].endswith('TemplateProgram::TemplateProgram')]
+            pcs = event_calls(p, 'parse_from_str')
+            wf = event_calls(p, 'with_file')
+            if lit and pcs and wf:
+                file = lit[0][2][1]
+                ok = S(file) == 'into(s)' or S(file) == 's'
+                ok = ok and S(pcs[0][2][0]) == S(file) and all(S(w[2][1]) == S(file) for w in wf)
+    ctx.ob(rid, 'template-new', ok, 'TemplateProgram::new parses, attaches and stores the same text s.into()', tn.where())
+    deny = re.compile(r'::(trim\w*|replace\w*|to_lowercase|to_uppercase|strip_\w+|split\w*|lines|chars)$')
+    for path in ('<A as parse::ParseFromStr>::parse_from_str', 'TemplateProgram::new', 'CompiledProgram::new', 'TemplateProgram::instantiate'):
+        fn = ctx.anchor(fx, path)
+        hits = [c for bid, c, t in fn.calls() if deny.search(c)]
+        ctx.ob(rid, 'no-text-transform:' + path, not hits, 'no string transformation in %s' % path, fn.where(), str(hits))
+
+
 def check(ctx):
+    from . import c04
+    c04.group_rule(ctx, 'R20.7', r'^(<A as parse::ParseFromStr>::parse_from_str|TemplateProgram::(new|instantiate)|CompiledProgram::new|<error::RichError as std::fmt::Display>::fmt|error::Span::to_slice)$', 'text plumbing and error rendering: full call traces', 6)
+    r_same_text(ctx)
     r_conversions(ctx)
     r_provenance(ctx)
     r_render(ctx)
